@@ -21,7 +21,7 @@ ENCODED = ["twisted.conch.ssh.transport:SSHTransportBase.sendPacket",
            "twisted.conch.ssh.transport:SSHTransportBase.connectionMade",
            "twisted.conch.ssh.transport:SSHCiphers"]
 BOUNDS = {"quick": {"p": 2, "p2": 1, "v": 1, "ban": 1, "pad": 6, "ms": 4, "cuts": 1, "lcut": 9, "n": 18},
-          "thorough": {"p": 4, "p2": 3, "v": 2, "ban": 2, "pad": 12, "ms": 20, "cuts": 2, "lcut": 64, "n": 70}}
+          "thorough": {"p": 3, "p2": 2, "v": 2, "ban": 2, "pad": 12, "ms": 16, "cuts": 2, "lcut": 64, "n": 70}}
 B = {}
 BOUNDS_TEXT = ("1-2 packets; message number any 0..255, payload of 0..p (second packet 0..p2) symbolic bytes (all 256 "
                "values); random padding = symbolic bytes (first `pad` bytes of the random pool symbolic, rest 0x99); "
@@ -367,7 +367,7 @@ def version(nb: int, ban: str, v: str, crlf: bool, m1: int, p1: str, pad: str, s
     pre: "\\n" not in ban and "\\n" not in v and "\\r" not in v and "-" not in v
     pre: nb > 0 or len(ban) == 0
     pre: 0 <= s1 <= s2
-    pre: B['cuts'] == 2 or s1 == 0
+    pre: (B['cuts'] == 2 and nb == 0) or s1 == 0
     post: _
     """
     ban = _fix(ban, 4)
@@ -421,7 +421,7 @@ def framing(bs: int, ms: int, m1: int, p1: str, m2: int, p2: str, pad: str, s1: 
     pre: len(p1) <= B['p'] and len(p2) <= B['p2'] and len(pad) == B['pad']
     pre: all(ord(c) < 256 for c in p1 + p2 + pad)
     pre: 0 <= s1 <= s2
-    pre: (B['cuts'] == 2 and ms == 0) or s1 == 0
+    pre: s1 == 0
     pre: ms > 0 or (ok1 and ok2)
     post: _
     """
